@@ -68,10 +68,10 @@ func (op Operator) Format(out io.Writer) error {
 				if _, err := out.Write([]byte(" ")); err != nil {
 					return err
 				}
-				if natVal, ok := val.(pdf.Native); ok {
-					if err := pdf.Format(out, pdf.OptContentStream, natVal); err != nil {
-						return err
-					}
+				// format the value like any other operand; pdf.Format converts
+				// values which are not of a native type (pdf.Number, ...)
+				if err := pdf.Format(out, pdf.OptContentStream, val); err != nil {
+					return err
 				}
 				if _, err := out.Write([]byte("\n")); err != nil {
 					return err
